@@ -86,6 +86,23 @@ theorem timer_once_per_interval (ms : List Move) (inp : PollIn) (o : Outcome) (t
        (step (reach ms) inp o).1.timers t = none) :=
   activation_rearms _ inp o (inv_reach ms).t t now due he
 
+/-- every live timer has a positive interval (repaired `Server::time`, fixes/server/03): without it a timer
+    re-queued at the same tick keeps the timer loop of run() busy forever and neither sockets nor a pending
+    interrupt are ever looked at -/
+theorem timer_intervals_positive (ms : List Move) (t : Id) (ti : TimerS) (h : (reach ms).timers t = some ti) :
+    0 < ti.interval := (inv_reach ms).t.pos t ti h
+
+/-- so every activation moves the due time of the timer strictly forward: the timer loop of one iteration
+    activates a timer with due time `due` at most `(now - due) / interval + 1` times -/
+theorem activation_moves_due_forward (ms : List Move) (inp : PollIn) (o : Outcome) (t : Id) (now due : Int)
+    (he : Ev.activated t now due ∈ (step (reach ms) inp o).2) (ti' : TimerS)
+    (h' : (step (reach ms) inp o).1.timers t = some ti') : due < ti'.exec := by
+  obtain ⟨ti, h1, _, h3⟩ := timer_once_per_interval ms inp o t now due he
+  have hp := timer_intervals_positive ms t ti h1
+  rcases h3 with h3 | h3
+  · rw [h3] at h'; injection h' with h'; subst h'; simp; omega
+  · rw [h3] at h'; simp at h'
+
 /-- the time-out handed to poll is the distance to the earliest queued due time (never negative):
     run() does not sleep past a due timer, also when onClosed callbacks created timers -/
 theorem poll_timeout_is_next_due (ms : List Move) (inp : PollIn) (o : Outcome) (now tmo tmo' : Int)
@@ -103,6 +120,19 @@ theorem poll_timeout_is_next_due (ms : List Move) (inp : PollIn) (o : Outcome) (
     exact ⟨k, v, rest, rfl, h.symm⟩
 
 /-! ### removals -/
+
+/-- a step of run() performs at most one callback (the granularity `gone` and `removed_never_called` rely on) -/
+theorem step_at_most_one_callback (s : St) (inp : PollIn) (o : Outcome) : (step s inp o).2.length ≤ 1 := by
+  have hw : ∀ s i, (writeReady s i o).2.length ≤ 1 := by
+    intro s i; unfold writeReady; dsimp only; repeat' split
+    all_goals simp
+  have hd : ∀ s ev, (dispatch s ev o).2.length ≤ 1 := by
+    intro s ev; unfold dispatch; dsimp only; repeat' split
+    all_goals first | simp | exact hw _ _
+  unfold step
+  dsimp only
+  repeat' split
+  all_goals first | exact hd _ _ | simp
 
 /-- every callback of every step goes to an object that is in its object table when the step starts -/
 theorem callbacks_only_to_live (ms : List Move) (inp : PollIn) (o : Outcome) (e : Ev)
@@ -436,6 +466,21 @@ example : (step (reach exMoves) {} .all).2 = [Ev.activated 1 1002 1002] := by de
 example : (step (step (reach exMoves) {} .all).1 {} .all).2 = [Ev.activated 2 1002 1002] ∧
     (step (step (reach exMoves) {} .all).1 {} .all).1.gone 1 = true ∧
     (step (step (reach exMoves) {} .all).1 {} .all).1.interrupted = true := by decide
+
+/-- interrupt() before run(): the first poll reports the event descriptor and run() returns -/
+def exIntr : List Move := [.act .interrupt, .enter, .step {} .all, .step {} .all, .step {} .all]
+
+example : (reach exIntr).pc = .poll 1000 300000 ∧ (reach exIntr).selected = [] ∧ (reach exIntr).interrupted = true ∧
+    (reach exIntr).pendingEfd = 0 ∧
+    (step (reach exIntr) { eventfd := true } .all).1.pc = .idle ∧
+    (step (reach exIntr) { eventfd := true } .all).2 = [Ev.returned] := by decide
+
+/-- a failed read queues the client; the closing loop delivers onClosed before the next poll -/
+def exClose : List Move :=
+  [.mkPair 1, .env (.peerClose 1), .act (.read 1), .enter, .step {} .all, .step {} .all]
+
+example : (reach exClose).pc = .closing 1000 300000 ∧ (reach exClose).closing = [1] ∧
+    (step (reach exClose) {} .all).2 = [Ev.onClosed 1] := by decide
 
 /-- a listener whose onAccepted removes the client it is given and returns a callback (D20) -/
 def exAccept : List Move :=
